@@ -223,11 +223,14 @@ class RecipeManager:
     """
     self._scope_configs = collections.OrderedDict()
     for config in quantization_recipe:
+      # A NO_QUANTIZE rule may come without an op config; when it has one, keep
+      # it so that the loaded recipe equals the saved one.
+      op_config = config.get('op_config')
       self.add_quantization_config(
           config['regex'],
           config['operation'],
-          _OpQuantizationConfig.from_dict(config['op_config'])
-          if config['algorithm_key'] != AlgorithmName.NO_QUANTIZE
+          _OpQuantizationConfig.from_dict(op_config)
+          if op_config is not None
           else None,
           config['algorithm_key'],
       )
